@@ -3,7 +3,9 @@
    O : oracles  = the text layers (csv, str/int/float/complex, isidentifier, namedtuple);
    y : yres     = PyYAML's loading of the header that save wrote (data, not modelled). *)
 From Coq Require Import String List ZArith Bool.
-From PV Require Import Model_scsv Proofs_scsv Model_scsv_frame Proofs_scsv_frame.
+From Coq Require Import Ascii NArith.
+From PV Require Import Model_scsv Proofs_scsv Model_scsv_frame Proofs_scsv_frame Model_scsv_header Proofs_scsv_header.
+From PV Require Import Model_scsv_py Gen_scsv Inst_scsv Inst_scsv_save Inst_scsv_header Proofs_scsv_faults.
 Import ListNotations.
 Open Scope string_scope.
 
@@ -236,3 +238,286 @@ Theorem C16_dash_delimiter_fence_refuted :
   toy_writer "-" dash_rows = ["a-b-c-d" ++ LF; fence_line; "1-2-3-4" ++ LF] /\
   transport_via_file toy_writer toy_reader toy_hdr "-" dash_rows = Ok [["a"; "b"; "c"; "d"]].
 Proof. exact dash_fence_witness. Qed.
+
+(* ---- the header writer: `_yaml_quote` and the lines of write_scsv_header (Model_scsv_header) ---- *)
+
+(* `_yaml_quote` is exactly invertible by the scanner of a YAML single-quoted scalar, for EVERY string:
+   the model string is the UTF-8 byte string, so every code point of every plane is covered, and so are
+   apostrophes, control characters, line separators and the empty string *)
+Theorem C16_yaml_quote_roundtrip : forall s, yaml_unquote (yaml_quote s) = Some s.
+Proof. exact yaml_unquote_quote. Qed.
+
+(* the quoted form is the only text that reads back as s: nothing else is accepted for it *)
+Theorem C16_yaml_quote_exact : forall t s, yaml_unquote t = Some s -> t = yaml_quote s.
+Proof. exact yaml_unquote_exact. Qed.
+
+(* the same over any alphabet with a decidable equality, whichever character is the quote ... *)
+Theorem C16_yaml_quote_any_alphabet : forall (A : Type) (eqb : A -> A -> bool) (q : A),
+  (forall a b, eqb a b = true <-> a = b) ->
+  forall s, unquote A eqb q (quote A eqb q s) = Some s.
+Proof. exact unquote_quote. Qed.
+
+(* ... in particular over lists of code points (any natural number; Unicode ends at 0x10FFFF) *)
+Theorem C16_yaml_quote_code_points : forall s, cp_unquote (cp_quote s) = Some s.
+Proof. exact cp_unquote_quote. Qed.
+
+(* and the two agree through UTF-8: quoting the bytes = encoding the quoted code points (no byte of a
+   multi-byte sequence is an apostrophe), for all code points below 2^21 *)
+Theorem C16_yaml_quote_utf8 : forall s, Forall (fun n => (n < 2097152)%N) s ->
+  quote ascii Ascii.eqb apostrophe (utf8 s) = utf8 (cp_quote s).
+Proof. exact utf8_quote_commutes. Qed.
+
+(* a header that write_scsv_header writes (any comments, any units) determines the delimiter and the
+   missing marker ... *)
+Theorem C16_header_delimiter_missing_recoverable : forall O cs s units ls,
+  header_lines O cs s units = Ok ls ->
+  exists d m, sdelim s = Some d /\ smissing s = Some m /\
+    obind (nth_error ls (length cs + 1)) (scalar_of_line "  delimiter: ") = Some d /\
+    obind (nth_error ls (length cs + 2)) (scalar_of_line "  missing: ") = Some m.
+Proof. exact header_delimiter_missing_recoverable. Qed.
+
+(* ... and every field name and every string fill value, whatever characters they contain *)
+Theorem C16_header_field_recoverable : forall O f u l,
+  field_lines O f u = Ok l ->
+  exists n, fname f = Some (YStr n) /\
+    obind (nth_error l 0) (scalar_of_line "    - name: ") = Some n /\
+    forall x, ffill f = Some (YStr x) -> obind (nth_error l (length l - 1)) (scalar_of_line "      fill: ") = Some x.
+Proof. exact header_field_recoverable. Qed.
+
+(* by computation: apostrophes are doubled, U+1F600 is four bytes none of which is touched, NEL is C2 85,
+   malformed scalars are refused, a two-field header with a comment, a unit, an empty string fill and an
+   integer fill *)
+Example C16_header_examples :
+  yaml_quote "it's" = "'it''s'" /\ yaml_quote "" = "''" /\ yaml_quote "'" = "''''" /\
+  utf8_cp 128512 = [byte 240; byte 159; byte 152; byte 128] /\ utf8_cp 133 = [byte 194; byte 133] /\
+  cp_quote [128512%N; 39%N] = [39; 128512; 39; 39; 39]%N /\
+  yaml_unquote "'a'b'" = None /\ yaml_unquote "'a" = None /\ yaml_unquote "a'" = None /\ yaml_unquote "''" = Some "" /\
+  header_lines hdrO ["c"] (mkSchema (Some ",") (Some "n'a")
+      (Some [mkField (Some (YStr "x")) None (Some (YStr "")); mkField (Some (YStr "y")) (Some "integer") (Some (YInt 0))]))
+      [Some "km"; None] =
+    Ok ["# c"; "schema:"; "  delimiter: ','"; "  missing: 'n''a'"; "  fields:";
+        "    - name: 'x'"; "      type: string"; "      unit: km"; "      fill: ''";
+        "    - name: 'y'"; "      type: integer"; "      fill: 0"].
+Proof. exact header_examples. Qed.
+
+(* ---- tie T: the definitions gen_* of coq/gen/Gen_scsv.v are regenerated from /repo/src/pydrex/io.py on every run
+   (translator/specs_scsv.py, a fail-closed Python-ast translator into the primitives of Model_scsv_py.v); each
+   statement says that the generated code IS the hand-written model the theorems above are about, for ALL inputs ---- *)
+
+(* _validate_scsv_schema: for every dictionary p that stands for a typed schema s (any key order, further keys such
+   as 'unit', every key possibly absent, names and fills of any scalar type) the generated function returns what
+   validate_schema returns, KeyError (field without name) and AttributeError (name not a string) included *)
+Theorem C16_gen_validate_is_model : forall O p s, abs_schema p = Some s ->
+  gen__validate_scsv_schema O p = lift_bool (validate_schema O s).
+Proof. exact gen_validate_eq. Qed.
+
+(* _parse_scsv_bool / _parse_scsv_cell: every type, every cell text, every missing marker, every fill value that is
+   not a complex number (the typed model has no complex fills) *)
+Theorem C16_gen_parse_bool_is_model : forall O x, gen__parse_scsv_bool O (PStr x) = Ok (PBool (parse_bool x)).
+Proof. exact gen_parse_bool_str. Qed.
+Theorem C16_gen_parse_cell_is_model : forall O t data missing fill, not_complex fill ->
+  gen__parse_scsv_cell O (PType t) (PStr data) (PStr missing) fill
+  = lift_cell (parse_cell O t data missing (abs_yval fill)).
+Proof. exact gen_parse_cell_eq. Qed.
+
+(* save_scsv, column-length check: columns given as lists or tuples *)
+Theorem C16_gen_save_lengths_is_model : forall O (cols : list (bool * list pyval)),
+  gen_save_scsv_lengths O (PList (map emb_col cols)) =
+  match cols with
+  | [] => Err EIndex
+  | c0 :: rest => if existsb (fun c => negb (Nat.eqb (length (snd c)) (length (snd c0)))) rest then Err SCSV
+                  else Ok (PInt (Z.of_nat (length (snd c0))))
+  end.
+Proof. exact gen_save_lengths_eq. Qed.
+
+(* save_scsv, fills / types / names: field_types of the model, then the names *)
+Theorem C16_gen_save_columns_is_model : forall kv l fs,
+  dget kv "fields" = Some (PList l) -> abs_fields l = Some fs ->
+  gen_save_scsv_columns (PDict kv) =
+    match field_types fs with
+    | Err e => Err e
+    | Ok tfs => match raw_names l with
+                | None => Err EKey
+                | Some ns => Ok (PList (map raw_fill l), PList (map (fun tf => PType (fst tf)) tfs), PList ns)
+                end
+    end.
+Proof. exact gen_save_columns_eq. Qed.
+
+(* save_scsv, body of the row loop: per-cell parse check (ValueError -> SCSVError), the isinstance / in (float,
+   complex) / np.isnan / == chain and the substitution of the missing marker, zip(strict=True) over the cells *)
+Theorem C16_gen_save_row_is_model : forall O kv m names tfs row,
+  dget kv "missing" = Some (PStr m) -> Forall (fun tf => not_complex (snd tf)) tfs -> length names = length tfs ->
+  gen_save_scsv_row O (PDict kv) (PList names) (PList (map (fun tf => PType (fst tf)) tfs)) (PList (map snd tfs))
+                    (PTuple (map emb_cell row))
+  = match row_vals O m tfs row with Ok vs => Ok (PList (map emb_cell vs)) | Err e => Err e end.
+Proof. exact gen_save_row_eq. Qed.
+Theorem C16_gen_save_row_written_text : forall O m tfs row,
+  value_to_scsv (match row_vals O m tfs row with Ok vs => Ok (map (pystr O) vs) | Err e => Err e end)
+  = save_row O m (map (fun tf => (fst tf, abs_yval (snd tf))) tfs) row.
+Proof. exact row_vals_model. Qed.
+
+(* read_scsv, the line loop: for every file the generated loop computes `frame` *)
+Theorem C16_gen_read_lines_is_model : forall O lines,
+  gen_read_scsv_lines O (PList (map PStr lines))
+  = Ok (PList (map PStr (fst (frame false lines))), PList (map PStr (snd (frame false lines)))).
+Proof. exact gen_read_lines_eq. Qed.
+
+(* read_scsv, schema names against the stripped header row; coltypes / missingstr / fillvals *)
+Theorem C16_gen_read_names_is_model : forall O kv l ns hdr file,
+  dget kv "fields" = Some (PList l) -> raw_names l = Some (map PStr ns) ->
+  gen_read_scsv_names O (PDict kv) (PList (map PStr hdr)) file
+  = if list_str_eqb ns (map strip hdr) then Ok (PList (map PStr ns)) else Err SCSV.
+Proof. exact gen_read_names_eq. Qed.
+Theorem C16_gen_read_columns_is_model : forall kv l fs,
+  dget kv "fields" = Some (PList l) -> abs_fields l = Some fs ->
+  gen_read_scsv_columns (PDict kv) =
+    match field_types fs with
+    | Err e => Err e
+    | Ok tfs => match dget kv "missing" with
+                | None => Err EKey
+                | Some m => Ok (PList (map (fun tf => PType (fst tf)) tfs), m, PList (map raw_fill l))
+                end
+    end.
+Proof. exact gen_read_columns_eq. Qed.
+
+(* parse_scsv_schema: for EVERY string the generated parser raises exactly when parse_terse does (same exception)
+   and otherwise returns a dictionary standing for the schema parse_terse returns *)
+Theorem C16_gen_parse_terse_is_model : forall O t,
+  match gen_parse_scsv_schema O (PStr t), parse_terse t with
+  | Ok p, Ok s => abs_schema p = Some s
+  | Err e, Err e' => e = e'
+  | _, _ => False
+  end.
+Proof. exact gen_parse_terse_eq. Qed.
+
+(* save_scsv as a whole: the model `save` (the subject of C16_roundtrip, C16_invalid_*_refused, C16_save_ok_only_if ...)
+   IS the generated blocks (column-length check, _validate_scsv_schema, fills / types / names, the row block for every
+   tuple of zip( *data)) put together by the skeleton `save_assembled` (order of the blocks, the SCSVError of
+   write_scsv_header for an invalid schema, csv.writer's acceptance of the delimiter, the outer `except ValueError`),
+   rows compared as csv.writer stringifies them; columns as lists or tuples *)
+Theorem C16_gen_save_is_model : forall O p s (cs : list (bool * list cell)),
+  abs_schema p = Some s -> fills_not_complex p ->
+  match save_assembled O p (PList (map emb_ccol cs)) with
+  | Ok rows => Ok (map (map (text_of O)) rows)
+  | Err e => Err e
+  end = save O s (map snd cs).
+Proof. exact save_assembled_eq. Qed.
+
+(* ---- one theorem per documented fault kind, over all schemas: `refused O s` = save_scsv (any equal-length columns)
+   and read_scsv raise SCSVError ---- *)
+Theorem C16_refused_missing_key_delimiter : forall O s, sdelim s = None -> refused O s.
+Proof. exact refused_missing_key_delimiter. Qed.
+Theorem C16_refused_missing_key_missing : forall O s, smissing s = None -> refused O s.
+Proof. exact refused_missing_key_missing. Qed.
+Theorem C16_refused_missing_key_fields : forall O s, sfields s = None -> refused O s.
+Proof. exact refused_missing_key_fields. Qed.
+Theorem C16_refused_no_fields : forall O s, sfields s = Some [] -> refused O s.
+Proof. exact refused_no_fields. Qed.
+Theorem C16_refused_delimiter_equals_missing : forall O s d, sdelim s = Some d -> smissing s = Some d -> refused O s.
+Proof. exact refused_delimiter_equals_missing. Qed.
+Theorem C16_refused_delimiter_in_missing : forall O s d m,
+  sdelim s = Some d -> smissing s = Some m -> contains m d = true -> refused O s.
+Proof. exact refused_delimiter_in_missing. Qed.
+(* the faults of one field, all fields before it being fine *)
+Theorem C16_refused_name_not_identifier : forall O s pre f post n,
+  sfields s = Some (pre ++ f :: post)%list -> validate_fields O pre = Ok true ->
+  fname f = Some (YStr n) -> o_is_ident O n = false -> refused O s.
+Proof. exact refused_name_not_identifier. Qed.
+Theorem C16_refused_unknown_type : forall O s pre f post n,
+  sfields s = Some (pre ++ f :: post)%list -> validate_fields O pre = Ok true ->
+  fname f = Some (YStr n) -> typemap (type_of f) = None -> refused O s.
+Proof. exact refused_unknown_type. Qed.
+Theorem C16_refused_numeric_without_fill : forall O s pre f post n t,
+  sfields s = Some (pre ++ f :: post)%list -> validate_fields O pre = Ok true ->
+  fname f = Some (YStr n) -> typemap (type_of f) = Some t -> (t = TInt \/ t = TFloat \/ t = TCplx) ->
+  ffill f = None -> refused O s.
+Proof. exact refused_numeric_without_fill. Qed.
+
+(* column count: with at least one row a data set is written only if it has one column per field ... *)
+Theorem C16_wrong_column_count_never_written : forall O s data rows fs,
+  save O s data = Ok rows -> sfields s = Some fs -> nrows_of data <> 0 -> length data = length fs.
+Proof. exact wrong_column_count_never_written. Qed.
+(* ... and it is refused with SCSVError when the cells its first row shares with the fields are accepted *)
+Theorem C16_wrong_column_count_refused : forall O s d m fs tfs c0 rest row0 R,
+  validate_schema O s = Ok true -> sdelim s = Some d -> smissing s = Some m -> sfields s = Some fs ->
+  field_types fs = Ok tfs -> o_delim_err O d = None ->
+  Forall (fun c => length c = length c0) rest ->
+  zipn (length c0) (c0 :: rest) = row0 :: R ->
+  ((exists pre extra, row0 = (pre ++ extra)%list /\ Forall2 (accepted O m) pre tfs /\ extra <> []) \/
+   (exists pre extra, tfs = (pre ++ extra)%list /\ Forall2 (accepted O m) row0 pre /\ extra <> [])) ->
+  save O s (c0 :: rest) = Err SCSV.
+Proof. exact wrong_column_count_refused. Qed.
+
+(* ---- the round trip of ONE cell, every type: what save_scsv writes for a representable cell is read back as the
+   cell (given a re-loaded fill that means the same), and the text is the missing marker exactly when the == / NaN
+   chain selects the cell ---- *)
+Theorem C16_cell_roundtrip : forall O k m t v v' d,
+  plain m = true -> cell_ok O k m t v d = true -> fill_faithful O t v v' ->
+  exists x, save_cell O m t v d = Ok x /\ parse_cell O t x m v' = Ok d /\
+            (x = m <-> substituted O t v d = Ok true).
+Proof. exact cell_roundtrip. Qed.
+
+(* what "the text layer reads the cell's text back" asks, type by type: nothing for strings and booleans; for the
+   numeric types Python's guarantees int(str(z)) == z (any size), float(repr(x)) == x as tokens (NaN, infinities,
+   negative zero), complex(str(c)) == c -- checked on every number of every generated case *)
+Theorem C16_text_clause_by_type : forall O,
+  (forall s, cl_text_rt O TStr (CStr s) = true) /\
+  (forall b, cl_text_rt O TBool (CBool b) = true) /\
+  (forall z, cl_text_rt O TInt (CInt z) = true <-> o_int_of O (o_str_int O z) = Ok z) /\
+  (forall f, cl_text_rt O TFloat (CFloat f) = true <-> o_float_of O (fstr f) = Ok f) /\
+  (forall re im, cl_text_rt O TCplx (CCplx re im) = true <-> o_cplx_of O (o_str_cplx O re im) = Ok (re, im)).
+Proof. exact text_clause_by_type. Qed.
+
+(* cells equal to the fill: for ANY fill value of a non-boolean field ('' , NaN, numbers as text or as numbers) the
+   cell t(fill) is selected by the chain, written as the missing marker, and the marker is read back as read_fill --
+   which is t(fill) again unless the fill is the text "NaN" (then t(nan): the same for float / complex, the open
+   finding string-fill-NaN for strings) *)
+Theorem C16_fill_cell_is_substituted : forall O t v c, t <> TBool -> conv O t v = Ok c -> substituted O t v c = Ok true.
+Proof. exact fill_cell_is_substituted. Qed.
+Theorem C16_fill_cell_roundtrip : forall O m t v c,
+  plain m = true -> t <> TBool -> conv O t v = Ok c ->
+  (exists y, parse_cell O t (pystr O c) m v = Ok y) ->
+  save_cell O m t v c = Ok m /\ parse_cell O t m m v = read_fill O t v /\
+  (is_NaN_text v = false -> parse_cell O t m m v = Ok c).
+Proof. exact fill_cell_roundtrip. Qed.
+(* any NaN cell of a float / complex field with a NaN fill is written as the missing marker *)
+Theorem C16_nan_cell_is_substituted : forall O t v d c,
+  (t = TFloat \/ t = TCplx) -> cell_isnan d = Ok true -> conv O t v = Ok c -> cell_isnan c = Ok true ->
+  substituted O t v d = Ok true.
+Proof. exact nan_cell_is_substituted. Qed.
+
+(* by computation on the toy oracle: fill '' (string), NaN fill given as text, -0.0 fill, integer fill with marker '';
+   one column too many / too few; each schema fault on the example schema *)
+Example C16_fault_examples :
+  fill_cell_roundtrip_stmt toyO "-" TStr (YStr "") (CStr "") /\
+  fill_cell_roundtrip_stmt toyO "-" TFloat (YStr "NaN") (CFloat FNan) /\
+  fill_cell_roundtrip_stmt toyO "-" TFloat (YStr "-0.0") (CFloat (FFin "-0.0")) /\
+  fill_cell_roundtrip_stmt toyO "" TInt (YInt 5) (CInt 5) /\
+  save toyO ex_schema (ex_data ++ [[CStr "x"; CStr "y"]])%list = Err SCSV /\
+  save toyO ex_schema (removelast ex_data) = Err SCSV /\
+  save toyO (mkSchema None (Some "-") (sfields ex_schema)) ex_data = Err SCSV /\
+  save toyO (mkSchema (Some ",") (Some "a,b") (sfields ex_schema)) ex_data = Err SCSV /\
+  save toyO (sch "," "-" [fld "bad name" "string" None]) [[CStr "x"]] = Err SCSV /\
+  save toyO (sch "," "-" [fld "a" "decimal" None]) [[CStr "x"]] = Err SCSV /\
+  save toyO (sch "," "-" [fld "a" "float" None]) [[CFloat FNan]] = Err SCSV.
+Proof. exact fault_examples_proof. Qed.
+
+(* _yaml_quote (tie T): for every string the generated function is `yaml_quote`, the function C16_yaml_quote_roundtrip /
+   _exact / _utf8 are about *)
+Theorem C16_gen_yaml_quote_is_model : forall O s, gen__yaml_quote O (PStr s) = Ok (PStr (yaml_quote s)).
+Proof. exact gen_yaml_quote_eq. Qed.
+
+(* write_scsv_header as a whole (tie T): started on the strings `written` so far, the generated function appends the
+   fence, the lines of `header_lines` (comments, schema:, quoted delimiter / missing marker, per field the quoted name,
+   the type, the unit if present, the fill -- quoted when a string, str() otherwise) each with its line terminator,
+   and the closing fence; SCSVError for an invalid schema; comments None or a list of strings *)
+Theorem C16_gen_write_header_is_model : forall O p s co kv l units,
+  abs_schema p = Some s -> p = PDict kv -> dget kv "fields" = Some (PList l) -> raw_units l = Some units ->
+  fills_not_complex p ->
+  forall written,
+  gen_write_scsv_header O (PList written) p (comments_py co) =
+  match header_lines O (comments_of co) s units with
+  | Ok ls => Ok (PList (written ++ PStr fence_line :: map term ls ++ [PStr fence_line]))
+  | Err e => Err e
+  end.
+Proof. exact gen_write_header_eq. Qed.
